@@ -11,8 +11,8 @@ package cmd
 //                      reloadManager.queueReloadRequest -> tryQueueReloadRequest; waitReloadReadyOrSignal runs for real)
 //   thread "worker"    `for req := range reloadManager.reloadReqs`: one GENERATED path of the worker body per request
 //   threads "serve"    stand-ins for the `go func(){ ...c.Serve(readyChan, listener)...; notifyRunStateChange() }()` closures
-//   real goroutines    startControlPlaneRetirement's retirement goroutine (runs for real on a zero control plane; the
-//                      moment it finishes is a scheduler/ChooseFree decision taken inside its oldCancel callback) and
+//   real goroutines    startControlPlaneRetirement's retirement goroutine (runs for real on a zero control plane; how long
+//                      closing the old generation takes is a scheduler/ChooseFree decision taken inside the real Close()) and
 //                      releaseReloadPendingAfterRetirement's waiter goroutine
 //
 // The path sets (c20WorkerPaths / c20MainPaths) come from $WORK/pre/paths.go, regenerated from cmd/run.go on every run.
@@ -97,9 +97,11 @@ func (sc *c20Scen) canonical(req int) bool {
 }
 
 type c20Retire struct {
-	gatePassed bool // the retirement goroutine went past oldCancel(): Close() and close(done) follow
-	owner      int
-	by         string
+	cancelled  bool // the retirement goroutine called oldCancel()
+	gatePassed bool // the real ControlPlane.Close() of the old generation was entered and allowed to proceed: only from
+	// this moment on may the old generation count as retired (Close then runs to its end for real)
+	owner int
+	by    string
 }
 
 type c20H struct {
@@ -599,8 +601,10 @@ func (h *c20H) waitReady(f func() (reloadReadyWaitResult, os.Signal)) (reloadRea
 
 func (h *c20H) newHandoff() *stagedReloadHandoff { return &stagedReloadHandoff{} }
 
-// startRetirement runs the REAL startControlPlaneRetirement. The retirement goroutine it starts calls oldCancel
-// before Close()/close(done): that callback is the gate deciding when this retirement ends.
+// startRetirement runs the REAL startControlPlaneRetirement on a zero control plane. The teardown of the old generation
+// is observable: the real ControlPlane.Close() calls the plane's cancel function first, and that function is the gate at
+// which the scheduler decides how long the teardown lasts. The old generation counts as retired only once Close() was
+// entered and let through; whatever the real function does with its done channel is up to the real function.
 func (h *c20H) startRetirement() {
 	tid := vsched.ThreadID()
 	rt := &c20Retire{owner: h.accepted, by: "mainloop"}
@@ -611,7 +615,8 @@ func (h *c20H) startRetirement() {
 		}
 	}
 	h.retire = append(h.retire, rt)
-	h.m.startControlPlaneRetirement(h.log, control.VerifC20RetiringPlane(), nil, func() { h.retireGate(rt) }, false, true)
+	old := control.VerifC20RetiringPlane(func() { h.retireGate(rt) })
+	h.m.startControlPlaneRetirement(h.log, old, nil, func() { rt.cancelled = true }, false, true)
 }
 
 func (h *c20H) retireGate(rt *c20Retire) {
@@ -626,7 +631,7 @@ func (h *c20H) retireGate(rt *c20Retire) {
 	h.bump()
 	rt.gatePassed = true
 	h.retireInFlight++
-	h.tr("retirement ends")
+	h.tr("old generation closed (retirement ends)")
 }
 
 // admit wraps the REAL admission (reloadManager.queueReloadRequest -> tryQueueReloadRequest) with the oracle.
